@@ -619,12 +619,22 @@ class C11(Prop):
                     continue   # a root kind this function does not take
                 want = set(id(x) for sres in singles for x in sres)
                 for order, tag in ((sample, "fwd"), (list(reversed(sample)), "rev")):
+                    roots = list(order)     # the caller's own list: it is looked at, and used again, after the call
                     try:
-                        got = list(fn(list(order), recursive=rec))
+                        got = list(fn(roots, recursive=rec))
+                        again = list(fn(roots, recursive=rec)) if tag == "fwd" else got
                     except Exception as x:
                         raise Violation("C11.raised", "%s:bulk_held:%s" % (fname, type(x).__name__),
                                         "bulk query over held references raised %r" % (x,))
                     w.count("probe.bulk_held_queries")
+                    if len(roots) != len(order) or any(a is not b for a, b in zip(roots, order)):
+                        raise Violation("C11.roots_changed", "%s/bulk_held" % fname,
+                                        "the query changed the list of roots the caller handed in (%d entries before, %d "
+                                        "after)" % (len(order), len(roots)))
+                    if set(id(x) for x in again) != set(id(x) for x in got):
+                        raise Violation("C11.enum.missing", "%s/bulk_held_again" % fname,
+                                        "the same query over the same list of roots answers %d references the first time "
+                                        "and %d the second" % (len(got), len(again)))
                     if any(not h.is_valid for h in got):
                         raise Violation("C11.invalid_result", "%s/bulk_held" % fname,
                                         "a bulk query rooted at held references returns a reference that reports invalid")
